@@ -1,18 +1,16 @@
 // ---------------------------------------------------------------------------
 // Pure / bit-level contracts (C17, C18, C20 arithmetic).
 //
-// Every contract is a pair of plain-Rust predicates `pre_*` / `post_*` plus a
-// check function `chk_*` that evaluates pre, calls the REAL function and
-// evaluates post.  The Kani function contracts (`#[kani::requires/ensures]`,
-// proved with `proof_for_contract`) and the native replay binary use the same
-// predicates, so a counterexample found by CBMC can be re-run on the real code.
+// Every contract is a pair of plain-Rust predicates `pre_*` / `post_*` (the specification,
+// written independently of the code under test) and an obligation `h_*` that draws inputs,
+// evaluates pre, calls the REAL function and evaluates post, one `ensure!` per clause.
+// The three arithmetic functions additionally carry Kani function contracts
+// (`#[kani::requires/ensures]` on one-line forwarders, proved with `proof_for_contract`).
 // ---------------------------------------------------------------------------
 
 pub const GROUP_WIDTH: usize = Group::WIDTH;
 /// Bits per lane of a `BitMask` word (1 for SSE2, 8 for the portable scanner).
 pub const STRIDE: usize = if Group::WIDTH == 16 { 1 } else { 8 };
-
-pub type Chk = Result<(), &'static str>;
 
 #[inline]
 pub(crate) fn tag_of(b: u8) -> Tag {
@@ -26,9 +24,9 @@ pub(crate) fn tag_u8(t: Tag) -> u8 {
 pub const EMPTY: u8 = 0xFF;
 pub const DELETED: u8 = 0x80;
 
-// ----- specification side, written independently of the code under test -----
+// ----- specification side -----
 
-/// Usable capacity of a table with `mask + 1` buckets (spec: 7/8 load, tiny tables keep one slot).
+/// Usable capacity of a table with `mask + 1` buckets (7/8 load; tiny tables keep one slot).
 pub fn spec_cap_of(mask: usize) -> usize {
     if mask < 8 {
         mask
@@ -46,6 +44,11 @@ pub fn pre_capacity_to_buckets(cap: usize) -> bool {
     cap != 0
 }
 
+fn min_ok(b: usize, size: usize) -> bool {
+    let elt = if size == 0 { 1 } else { size };
+    b.saturating_mul(elt) >= Group::WIDTH || b >= 16
+}
+
 /// C17: either overflow is reported (only when `cap * 8` is not representable) or the result is a
 /// power of two >= 4 whose usable capacity is >= cap and < buckets; it is the smallest such
 /// power of two that also respects the small-element minimum `buckets * max(size,1) >= WIDTH`.
@@ -53,30 +56,36 @@ pub fn post_capacity_to_buckets(cap: usize, size: usize, r: &Option<usize>) -> b
     match *r {
         None => cap.checked_mul(8).is_none(),
         Some(b) => {
-            let elt = if size == 0 { 1 } else { size };
-            let min_ok = |b: usize| b.saturating_mul(elt) >= Group::WIDTH || b >= 16;
             b.is_power_of_two()
                 && b >= 4
                 && cap.checked_mul(8).is_some()
                 && cap <= spec_cap_of(b - 1)
                 && spec_cap_of(b - 1) < b
-                && min_ok(b)
-                // minimality: half the size would not do
-                && (b == 4 || spec_cap_of(b / 2 - 1) < cap || !min_ok(b / 2))
+                && min_ok(b, size)
+                && (b == 4 || spec_cap_of(b / 2 - 1) < cap || !min_ok(b / 2, size))
         }
     }
 }
 
-pub fn chk_capacity_to_buckets(cap: usize, size: usize, align: usize) -> Chk {
-    if !pre_capacity_to_buckets(cap) {
-        return Ok(());
-    }
+pub fn h_capacity_to_buckets<S: Src>(s: &mut S) -> Chk {
+    let (cap, size, align) = (s.usize(), s.usize(), s.usize());
+    req!(s, pre_capacity_to_buckets(cap));
+    reach!(cap >= 15 && cap.checked_mul(8).is_some(), "large capacity without overflow");
+    reach!(cap.checked_mul(8).is_none(), "overflowing capacity");
     let r = capacity_to_buckets(cap, TableLayout { size, ctrl_align: align });
-    if post_capacity_to_buckets(cap, size, &r) {
-        Ok(())
-    } else {
-        Err("capacity_to_buckets: postcondition")
+    ensure!(r.is_some() || cap.checked_mul(8).is_none(), "capacity_to_buckets: None only when cap*8 overflows");
+    if let Some(b) = r {
+        ensure!(b.is_power_of_two() && b >= 4, "capacity_to_buckets: power of two >= 4");
+        ensure!(cap <= spec_cap_of(b - 1), "capacity_to_buckets: usable capacity >= request");
+        ensure!(spec_cap_of(b - 1) < b, "capacity_to_buckets: one slot always stays empty");
+        ensure!(min_ok(b, size), "capacity_to_buckets: small-element minimum buckets*size >= WIDTH");
+        ensure!(
+            b == 4 || spec_cap_of(b / 2 - 1) < cap || !min_ok(b / 2, size),
+            "capacity_to_buckets: smallest admissible power of two"
+        );
     }
+    ensure!(post_capacity_to_buckets(cap, size, &r), "capacity_to_buckets: postcondition");
+    Ok(())
 }
 
 pub fn pre_bucket_mask_to_capacity(mask: usize) -> bool {
@@ -85,50 +94,41 @@ pub fn pre_bucket_mask_to_capacity(mask: usize) -> bool {
 pub fn post_bucket_mask_to_capacity(mask: usize, r: usize) -> bool {
     r == spec_cap_of(mask) && r <= mask && (mask == 0 || (r >= 1 && r < mask + 1))
 }
-pub fn chk_bucket_mask_to_capacity(mask: usize) -> Chk {
-    if !pre_bucket_mask_to_capacity(mask) {
-        return Ok(());
-    }
-    if post_bucket_mask_to_capacity(mask, bucket_mask_to_capacity(mask)) {
-        Ok(())
-    } else {
-        Err("bucket_mask_to_capacity: postcondition")
-    }
-}
-/// monotone in the mask (needed by the churn bound and the shrink contract)
-pub fn chk_bucket_mask_to_capacity_monotone(m1: usize, m2: usize) -> Chk {
-    if !(pre_bucket_mask_to_capacity(m1) && pre_bucket_mask_to_capacity(m2) && m1 <= m2) {
-        return Ok(());
-    }
-    if bucket_mask_to_capacity(m1) <= bucket_mask_to_capacity(m2) {
-        Ok(())
-    } else {
-        Err("bucket_mask_to_capacity: not monotone")
-    }
+pub fn h_bucket_mask_to_capacity<S: Src>(s: &mut S) -> Chk {
+    let (m1, m2) = (s.usize(), s.usize());
+    req!(s, pre_bucket_mask_to_capacity(m1));
+    let r = bucket_mask_to_capacity(m1);
+    ensure!(r == spec_cap_of(m1), "bucket_mask_to_capacity: 7/8 load (identity below 8)");
+    ensure!(r <= m1, "bucket_mask_to_capacity: capacity < buckets");
+    ensure!(m1 == 0 || r >= 1, "bucket_mask_to_capacity: capacity >= 1 for allocated tables");
+    // monotone in the mask (used by the churn bound and the shrink contract)
+    req!(s, pre_bucket_mask_to_capacity(m2) && m1 <= m2);
+    ensure!(r <= bucket_mask_to_capacity(m2), "bucket_mask_to_capacity: monotone");
+    Ok(())
 }
 
 pub fn pre_calculate_layout_for(size: usize, align: usize, buckets: usize) -> bool {
     buckets.is_power_of_two() && align.is_power_of_two() && align >= Group::WIDTH
 }
-/// C17: `None` exactly when the exact mathematical size does not fit `isize::MAX` after padding;
-/// otherwise the control bytes start after all elements, aligned, with minimal padding, the size
-/// covers elements + buckets + one mirrored group, and the Layout is valid.
+/// exact arithmetic in u128: (fits, ctrl_offset, total size)
+fn spec_layout(size: usize, align: usize, buckets: usize) -> (bool, u128, u128) {
+    let data = (size as u128) * (buckets as u128);
+    let off = (data + (align as u128 - 1)) & !(align as u128 - 1);
+    let len = off + buckets as u128 + Group::WIDTH as u128;
+    (len <= (isize::MAX as u128) - (align as u128 - 1), off, len)
+}
 pub fn post_calculate_layout_for(
     size: usize,
     align: usize,
     buckets: usize,
     r: Option<(usize, usize, usize)>, // (layout.size, layout.align, ctrl_offset)
 ) -> bool {
-    // exact arithmetic in u128
+    let (fits, off, len) = spec_layout(size, align, buckets);
     let data = (size as u128) * (buckets as u128);
-    let off = (data + (align as u128 - 1)) & !(align as u128 - 1);
-    let len = off + buckets as u128 + Group::WIDTH as u128;
-    let fits = len <= (isize::MAX as u128) - (align as u128 - 1);
     match r {
         None => !fits,
         Some((lsize, lalign, ctrl_offset)) => {
-            fits
-                && ctrl_offset as u128 == off
+            fits && ctrl_offset as u128 == off
                 && lsize as u128 == len
                 && lalign == align
                 && ctrl_offset as u128 >= data
@@ -137,32 +137,49 @@ pub fn post_calculate_layout_for(
         }
     }
 }
-pub fn chk_calculate_layout_for(size: usize, align: usize, buckets: usize) -> Chk {
-    if !pre_calculate_layout_for(size, align, buckets) {
-        return Ok(());
-    }
+pub fn h_calculate_layout_for<S: Src>(s: &mut S) -> Chk {
+    let (size, align, buckets) = (s.usize(), s.usize(), s.usize());
+    req!(s, pre_calculate_layout_for(size, align, buckets));
     let r = TableLayout { size, ctrl_align: align }.calculate_layout_for(buckets);
     let r = r.map(|(l, off)| (l.size(), l.align(), off));
-    if post_calculate_layout_for(size, align, buckets, r) {
-        Ok(())
-    } else {
-        Err("calculate_layout_for: postcondition")
+    let (fits, off, len) = spec_layout(size, align, buckets);
+    let data = (size as u128) * (buckets as u128);
+    reach!(r.is_none(), "layout overflow reported");
+    reach!(r.is_some() && size > 0, "layout computed");
+    ensure!(r.is_some() == fits, "calculate_layout_for: None exactly when the padded size exceeds isize::MAX");
+    if let Some((lsize, lalign, ctrl_offset)) = r {
+        ensure!(ctrl_offset as u128 >= data, "calculate_layout_for: control bytes start after every element");
+        ensure!(ctrl_offset % align == 0, "calculate_layout_for: control bytes aligned for group loads and elements");
+        ensure!((ctrl_offset as u128) - data < align as u128, "calculate_layout_for: minimal padding");
+        ensure!(ctrl_offset as u128 == off, "calculate_layout_for: ctrl offset is the exact round-up");
+        ensure!(lsize as u128 == len, "calculate_layout_for: size = elements + buckets + mirrored group");
+        ensure!(lalign == align, "calculate_layout_for: alignment");
+        ensure!(lsize <= isize::MAX as usize - (align - 1), "calculate_layout_for: Layout validity (size rounded up fits isize)");
     }
+    ensure!(post_calculate_layout_for(size, align, buckets, r), "calculate_layout_for: postcondition");
+    Ok(())
 }
 
-pub fn chk_table_layout_new<T>() -> Chk {
+fn chk_table_layout_new<T>() -> Chk {
     let l = TableLayout::new::<T>();
     let a = core::mem::align_of::<T>();
-    if l.size == core::mem::size_of::<T>()
-        && l.ctrl_align == (if a > Group::WIDTH { a } else { Group::WIDTH })
-        && l.ctrl_align.is_power_of_two()
-        && l.ctrl_align >= Group::WIDTH
-        && l.ctrl_align >= a
-    {
-        Ok(())
-    } else {
-        Err("TableLayout::new: postcondition")
-    }
+    ensure!(l.size == core::mem::size_of::<T>(), "TableLayout::new: size");
+    ensure!(l.ctrl_align == (if a > Group::WIDTH { a } else { Group::WIDTH }), "TableLayout::new: ctrl_align = max(align_of T, WIDTH)");
+    ensure!(l.ctrl_align.is_power_of_two() && l.ctrl_align >= a, "TableLayout::new: alignment sufficient for elements");
+    Ok(())
+}
+#[repr(align(64))]
+pub struct A64(pub [u8; 64]);
+pub fn h_table_layout_new<S: Src>(_s: &mut S) -> Chk {
+    sub!(chk_table_layout_new::<()>());
+    sub!(chk_table_layout_new::<u8>());
+    sub!(chk_table_layout_new::<u16>());
+    sub!(chk_table_layout_new::<u64>());
+    sub!(chk_table_layout_new::<[u64; 3]>());
+    sub!(chk_table_layout_new::<[u8; 200]>());
+    sub!(chk_table_layout_new::<A64>());
+    sub!(chk_table_layout_new::<(u64, u8)>());
+    Ok(())
 }
 
 pub fn pre_move_next(pos: usize, stride: usize, mask: usize) -> bool {
@@ -170,51 +187,44 @@ pub fn pre_move_next(pos: usize, stride: usize, mask: usize) -> bool {
     // (calculate_layout_for's contract), hence the bound on mask
     mask < (1usize << 62) && (mask + 1).is_power_of_two() && pos <= mask && stride <= mask
 }
-pub fn chk_move_next(pos: usize, stride: usize, mask: usize) -> Chk {
-    if !pre_move_next(pos, stride, mask) {
-        return Ok(());
-    }
+pub fn h_move_next<S: Src>(s: &mut S) -> Chk {
+    let (pos, stride, mask) = (s.usize(), s.usize(), s.usize());
+    req!(s, pre_move_next(pos, stride, mask));
     let mut p = ProbeSeq { pos, stride };
     p.move_next(mask);
     let st2 = stride as u128 + Group::WIDTH as u128;
     let pos2 = ((pos as u128 + st2) & mask as u128) as usize;
-    if p.stride as u128 == st2 && p.pos == pos2 && p.pos <= mask {
-        Ok(())
-    } else {
-        Err("ProbeSeq::move_next: postcondition")
-    }
+    ensure!(p.stride as u128 == st2, "ProbeSeq::move_next: stride grows by one group width");
+    ensure!(p.pos == pos2 && p.pos <= mask, "ProbeSeq::move_next: pos = (pos + stride') & mask");
+    Ok(())
 }
 
-pub fn chk_h1(hash: u64) -> Chk {
-    if h1(hash) == hash as usize {
-        Ok(())
-    } else {
-        Err("h1: postcondition")
-    }
+pub fn h_h1<S: Src>(s: &mut S) -> Chk {
+    let hash = s.u64();
+    ensure!(h1(hash) == hash as usize, "h1: low bits of the hash");
+    Ok(())
 }
 
 /// C17 (bounded part): the probe sequence of a table with `groups` groups visits `groups`
 /// pairwise-different group offsets in its first `groups` steps, from any start position.
-pub fn chk_probe_cycle(mask: usize, start: usize) -> Chk {
-    if !(mask != usize::MAX && (mask + 1).is_power_of_two() && mask + 1 >= Group::WIDTH) {
-        return Ok(());
-    }
+pub fn h_probe_cycle<S: Src>(s: &mut S) -> Chk {
+    let g = s.u8();
+    req!(s, g <= 6);
+    let mask = (Group::WIDTH << g) - 1;
+    let start = s.usize();
     let groups = (mask + 1) / Group::WIDTH;
     let mut p = ProbeSeq { pos: start & mask, stride: 0 };
     let base = p.pos;
-    let mut seen: u64 = 0; // groups <= 64 in every harness
+    let mut seen: u64 = 0;
     let mut k = 0;
     while k < groups {
-        // distance from the start in units of groups
-        let d = (p.pos.wrapping_sub(base) & mask) / Group::WIDTH;
-        if (p.pos.wrapping_sub(base) & mask) % Group::WIDTH != 0 {
-            return Err("probe_cycle: position not a whole number of groups from start");
-        }
-        if seen >> d & 1 == 1 {
-            return Err("probe_cycle: group visited twice");
-        }
+        let off = p.pos.wrapping_sub(base) & mask;
+        ensure!(off % Group::WIDTH == 0, "probe sequence: positions are whole groups away from the start");
+        let d = off / Group::WIDTH;
+        ensure!(seen >> d & 1 == 0, "probe sequence: no group visited twice before all are visited");
         seen |= 1 << d;
         if k + 1 < groups {
+            ensure!(p.stride <= mask, "probe sequence: stride stays within the table (upstream debug assertion)");
             p.move_next(mask);
         }
         k += 1;
@@ -223,30 +233,17 @@ pub fn chk_probe_cycle(mask: usize, start: usize) -> Chk {
 }
 
 // ----- Tag -----
-pub fn chk_tag(hash: u64, b: u8) -> Chk {
+pub fn h_tag<S: Src>(s: &mut S) -> Chk {
+    let (hash, b) = (s.u64(), s.u8());
     let t = Tag::full(hash);
-    if tag_u8(t) != spec_tag(hash) || tag_u8(t) >= 0x80 {
-        return Err("Tag::full: not the top 7 bits");
-    }
-    if !t.is_full() || t.is_special() {
-        return Err("Tag::full: result not classified full");
-    }
+    ensure!(tag_u8(t) == spec_tag(hash) && tag_u8(t) < 0x80, "Tag::full: top 7 bits of the hash");
+    ensure!(t.is_full() && !t.is_special(), "Tag::full: result is classified full");
     let x = tag_of(b);
-    if x.is_full() != (b < 0x80) {
-        return Err("Tag::is_full");
-    }
-    if x.is_special() != (b >= 0x80) {
-        return Err("Tag::is_special");
-    }
-    if b == EMPTY && !x.special_is_empty() {
-        return Err("Tag::special_is_empty(EMPTY)");
-    }
-    if b == DELETED && x.special_is_empty() {
-        return Err("Tag::special_is_empty(DELETED)");
-    }
-    if tag_u8(Tag::EMPTY) != EMPTY || tag_u8(Tag::DELETED) != DELETED {
-        return Err("Tag constants");
-    }
+    ensure!(x.is_full() == (b < 0x80), "Tag::is_full");
+    ensure!(x.is_special() == (b >= 0x80), "Tag::is_special");
+    ensure!(b != EMPTY || x.special_is_empty(), "Tag::special_is_empty(EMPTY)");
+    ensure!(b != DELETED || !x.special_is_empty(), "Tag::special_is_empty(DELETED)");
+    ensure!(tag_u8(Tag::EMPTY) == EMPTY && tag_u8(Tag::DELETED) == DELETED, "Tag constants");
     Ok(())
 }
 
@@ -261,26 +258,31 @@ pub fn bm_bit<M: Copy + Into<u64>>(m: M, i: usize) -> bool {
     (m.into() >> (i * STRIDE + (STRIDE - 1))) & 1 == 1
 }
 
-/// `bytes` must hold at least WIDTH + off bytes; `off` selects an unaligned load.
-pub fn chk_group(bytes: &Aligned<32>, off: usize, tagb: u8) -> Chk {
-    if off > 16 {
-        return Ok(());
-    }
+fn draw32<S: Src>(s: &mut S) -> Aligned<32> {
+    let mut a = Aligned::<32>([0u8; 32]);
+    for_upto!(i, 32, {
+        a.0[i] = s.u8();
+    });
+    a
+}
+
+pub fn h_group<S: Src>(s: &mut S) -> Chk {
+    let bytes = draw32(s);
+    let off = s.usize();
+    let tagb = s.u8();
+    req!(s, off <= 16);
     let w = Group::WIDTH;
     let p: *const Tag = bytes.0.as_ptr().cast();
     let g = unsafe { Group::load(p.add(off)) };
     let ga = unsafe { Group::load_aligned(p) };
-    let tag = tag_of(tagb & 0x7f);
     let tb = tagb & 0x7f;
+    let tag = tag_of(tb);
 
-    // load / store round trip (aligned)
     let mut out = Aligned::<32>([0u8; 32]);
     unsafe { ga.store_aligned(out.0.as_mut_ptr().cast()) };
     let mut i = 0;
     while i < w {
-        if out.0[i] != bytes.0[i] {
-            return Err("Group::load_aligned/store_aligned round trip");
-        }
+        ensure!(out.0[i] == bytes.0[i], "Group::load_aligned/store_aligned round trip");
         i += 1;
     }
 
@@ -296,50 +298,38 @@ pub fn chk_group(bytes: &Aligned<32>, off: usize, tagb: u8) -> Chk {
     let mut i = 0;
     while i < w {
         let b = bytes.0[off + i];
-        if bm_bit(m_empty, i) != (b == EMPTY) {
-            return Err("Group::match_empty differs from bytewise definition");
-        }
-        if bm_bit(m_eod, i) != (b >= 0x80) {
-            return Err("Group::match_empty_or_deleted differs from bytewise definition");
-        }
-        if bm_bit(m_full, i) != (b < 0x80) {
-            return Err("Group::match_full differs from bytewise definition");
-        }
+        ensure!(bm_bit(m_empty, i) == (b == EMPTY), "Group::match_empty equals the bytewise definition");
+        ensure!(bm_bit(m_eod, i) == (b >= 0x80), "Group::match_empty_or_deleted equals the bytewise definition");
+        ensure!(bm_bit(m_full, i) == (b < 0x80), "Group::match_full equals the bytewise definition");
         let want = if b >= 0x80 { EMPTY } else { DELETED };
-        if cv.0[i] != want {
-            return Err("Group::convert_special_to_empty_and_full_to_deleted differs from bytewise definition");
-        }
+        ensure!(cv.0[i] == want, "Group::convert_special_to_empty_and_full_to_deleted equals the bytewise definition");
         let hit = bm_bit(m_tag, i);
         if b == tb {
-            if !hit {
-                return Err("Group::match_tag misses a true match");
-            }
+            ensure!(hit, "Group::match_tag reports every true match");
             seen_true_match = true;
         } else if hit {
             // only the portable scanner may report a false positive, and only a byte that
             // differs from the tag in its lowest bit, above a true match
-            if Group::WIDTH == 16 || (b ^ tb) != 1 || !seen_true_match {
-                return Err("Group::match_tag reports a byte that is not the tag");
-            }
+            ensure!(
+                Group::WIDTH != 16 && (b ^ tb) == 1 && seen_true_match,
+                "Group::match_tag reports only the tag (portable: or a low-bit neighbour above a true match)"
+            );
         }
         i += 1;
     }
-    // no stray bits outside the lane-marker positions
     let lanes: u64 = if STRIDE == 1 { 0xffff } else { 0x8080_8080_8080_8080 };
     let all = (m_tag as u64) | (m_empty as u64) | (m_eod as u64) | (m_full as u64);
-    if all & !lanes != 0 {
-        return Err("Group::match_*: stray bits in mask");
-    }
+    ensure!(all & !lanes == 0, "Group::match_*: no stray bits outside lane markers");
     Ok(())
 }
 
 /// BitMask queries and iteration on every mask a scanner can produce
 /// (match_full over all groups produces every lane pattern).
-pub fn chk_bitmask(bytes: &Aligned<32>) -> Chk {
+pub fn h_bitmask<S: Src>(s: &mut S) -> Chk {
+    let bytes = draw32(s);
     let w = Group::WIDTH;
     let g = unsafe { Group::load_aligned(bytes.0.as_ptr().cast()) };
     let m = g.match_full();
-    // abstract view: set of lanes
     let mut lanes = [false; 16];
     let mut n = 0usize;
     let mut first = usize::MAX;
@@ -356,99 +346,83 @@ pub fn chk_bitmask(bytes: &Aligned<32>) -> Chk {
         }
         i += 1;
     }
-    if m.any_bit_set() != (n != 0) {
-        return Err("BitMask::any_bit_set");
-    }
+    ensure!(m.any_bit_set() == (n != 0), "BitMask::any_bit_set");
     match m.lowest_set_bit() {
-        None => {
-            if n != 0 {
-                return Err("BitMask::lowest_set_bit: None on non-empty mask");
-            }
-        }
-        Some(b) => {
-            if n == 0 || b != first {
-                return Err("BitMask::lowest_set_bit: wrong lane");
-            }
-        }
+        None => ensure!(n == 0, "BitMask::lowest_set_bit: None only on the empty mask"),
+        Some(b) => ensure!(n != 0 && b == first, "BitMask::lowest_set_bit: the lowest lane"),
     }
-    let tz = m.trailing_zeros();
-    if tz != (if n == 0 { w } else { first }) {
-        return Err("BitMask::trailing_zeros");
-    }
-    let lz = m.leading_zeros();
-    if lz != (if n == 0 { w } else { w - 1 - last }) {
-        return Err("BitMask::leading_zeros");
-    }
+    ensure!(m.trailing_zeros() == (if n == 0 { w } else { first }), "BitMask::trailing_zeros in lane units");
+    ensure!(m.leading_zeros() == (if n == 0 { w } else { w - 1 - last }), "BitMask::leading_zeros in lane units");
     let inv = m.invert();
     let mut i = 0;
     while i < w {
-        if bm_bit(inv.0, i) == lanes[i] {
-            return Err("BitMask::invert");
-        }
+        ensure!(bm_bit(inv.0, i) != lanes[i], "BitMask::invert flips every lane");
         i += 1;
     }
-    // iteration: ascending, each set lane once, then None forever
     let mut it = m.into_iter();
     let mut i = 0;
     while i < w {
         if lanes[i] {
             match it.next() {
-                Some(b) if b == i => {}
-                _ => return Err("BitMaskIter::next: wrong lane order"),
+                Some(b) => ensure!(b == i, "BitMaskIter::next: ascending, each set lane once"),
+                None => ensure!(false, "BitMaskIter::next: ends before all lanes were yielded"),
             }
         }
         i += 1;
     }
-    if it.next().is_some() || it.next().is_some() {
-        return Err("BitMaskIter::next: yields after exhaustion");
+    ensure!(it.next().is_none() && it.next().is_none(), "BitMaskIter::next: None after exhaustion");
+    Ok(())
+}
+
+pub fn h_static_empty<S: Src>(_s: &mut S) -> Chk {
+    let e = Group::static_empty();
+    ensure!((e.as_ptr() as usize) % Group::WIDTH == 0, "Group::static_empty: group aligned");
+    let mut i = 0;
+    while i < Group::WIDTH {
+        ensure!(tag_u8(e[i]) == EMPTY, "Group::static_empty: all EMPTY");
+        i += 1;
     }
     Ok(())
 }
 
-pub fn chk_static_empty() -> Chk {
-    let s = Group::static_empty();
-    if (s.as_ptr() as usize) % Group::WIDTH != 0 {
-        return Err("Group::static_empty: not group aligned");
-    }
-    let mut i = 0;
-    while i < Group::WIDTH {
-        if tag_u8(s[i]) != EMPTY {
-            return Err("Group::static_empty: not all EMPTY");
-        }
-        i += 1;
-    }
+/// std functions whose specifications the Verus preludes assume: discharged here against the
+/// real std code over the full domain.
+pub fn h_std_specs<S: Src>(s: &mut S) -> Chk {
+    let x = s.usize();
+    req!(s, x <= 1usize << 63);
+    let r = x.next_power_of_two();
+    ensure!(r.is_power_of_two() && r >= x && r >= 1, "std next_power_of_two: power of two >= x");
+    ensure!(x <= 1 || r / 2 < x, "std next_power_of_two: the smallest one");
+    ensure!(x > 1 || r == 1, "std next_power_of_two: 1 for x <= 1");
+    let y = s.usize();
+    ensure!(y.is_power_of_two() == (y != 0 && y & y.wrapping_sub(1) == 0), "std is_power_of_two: bit trick definition");
     Ok(())
 }
 
 // ----- serde size hint (C20) -----
 #[cfg(feature = "serde")]
-pub fn chk_cautious(hint: Option<usize>) -> Chk {
+pub fn h_cautious<S: Src>(s: &mut S) -> Chk {
+    let some = s.bool();
+    let h = s.usize();
+    let hint = if some { Some(h) } else { None };
     let r = crate::external_trait_impls::serde_verif::cautious(hint);
-    let want = match hint {
-        None => 0,
-        Some(h) => {
-            if h < 4096 {
-                h
-            } else {
-                4096
-            }
-        }
-    };
-    if r == want && r <= 4096 {
-        Ok(())
-    } else {
-        Err("serde size_hint::cautious: not min(hint, 4096)")
-    }
+    ensure!(r <= 4096, "serde size_hint::cautious: bounded by 4096 whatever the input claims");
+    ensure!(hint.is_some() || r == 0, "serde size_hint::cautious: 0 without a hint");
+    ensure!(!some || r == (if h < 4096 { h } else { 4096 }), "serde size_hint::cautious: min(hint, 4096)");
+    Ok(())
+}
+#[cfg(not(feature = "serde"))]
+pub fn h_cautious<S: Src>(_s: &mut S) -> Chk {
+    Ok(())
 }
 
 // ---------------------------------------------------------------------------
-// Kani: function contracts (modular route) + complete loop-free harnesses
+// Kani function contracts (modular route) on one-line forwarders to the real functions
 // ---------------------------------------------------------------------------
 #[cfg(kani)]
 mod pure_k {
     use super::*;
 
-    // --- contract carriers: one-line forwarders to the real functions ---
     #[kani::requires(pre_capacity_to_buckets(cap))]
     #[kani::ensures(|r| post_capacity_to_buckets(cap, size, r))]
     pub fn capacity_to_buckets_c(cap: usize, size: usize, align: usize) -> Option<usize> {
@@ -471,11 +445,7 @@ mod pure_k {
 
     #[kani::requires(pre_calculate_layout_for(size, align, buckets))]
     #[kani::ensures(|r| post_calculate_layout_for(size, align, buckets, *r))]
-    pub fn calculate_layout_for_c(
-        size: usize,
-        align: usize,
-        buckets: usize,
-    ) -> Option<(usize, usize, usize)> {
+    pub fn calculate_layout_for_c(size: usize, align: usize, buckets: usize) -> Option<(usize, usize, usize)> {
         TableLayout { size, ctrl_align: align }
             .calculate_layout_for(buckets)
             .map(|(l, off)| (l.size(), l.align(), off))
@@ -485,85 +455,22 @@ mod pure_k {
         calculate_layout_for_c(kani::any(), kani::any(), kani::any());
     }
 
-    // --- the same contracts as check functions (what the replay binary runs) ---
-    fn ok(r: Chk) {
-        assert!(r.is_ok());
-    }
+    // a caller checked against the contracts only (stub_verified): with_capacity's bucket
+    // computation followed by the layout computation never yields an invalid Layout
     #[kani::proof]
-    fn kp_capacity_to_buckets() {
+    #[kani::stub_verified(capacity_to_buckets_c)]
+    #[kani::stub_verified(calculate_layout_for_c)]
+    fn kc_caller_capacity_then_layout() {
         let cap: usize = kani::any();
-        kani::cover!(cap >= 15 && cap.checked_mul(8).is_some());
-        ok(chk_capacity_to_buckets(cap, kani::any(), kani::any()));
-    }
-    #[kani::proof]
-    fn kp_bucket_mask_to_capacity() {
-        ok(chk_bucket_mask_to_capacity(kani::any()));
-    }
-    #[kani::proof]
-    fn kp_bucket_mask_to_capacity_monotone() {
-        ok(chk_bucket_mask_to_capacity_monotone(kani::any(), kani::any()));
-    }
-    #[kani::proof]
-    fn kp_calculate_layout_for() {
-        let (s, a, b): (usize, usize, usize) = (kani::any(), kani::any(), kani::any());
-        ok(chk_calculate_layout_for(s, a, b));
-    }
-    #[repr(align(64))]
-    struct A64([u8; 64]);
-    #[kani::proof]
-    fn kp_table_layout_new() {
-        ok(chk_table_layout_new::<()>());
-        ok(chk_table_layout_new::<u8>());
-        ok(chk_table_layout_new::<u16>());
-        ok(chk_table_layout_new::<u64>());
-        ok(chk_table_layout_new::<[u64; 3]>());
-        ok(chk_table_layout_new::<[u8; 200]>());
-        ok(chk_table_layout_new::<A64>());
-        ok(chk_table_layout_new::<(u64, u8)>());
-    }
-    #[kani::proof]
-    fn kp_move_next() {
-        ok(chk_move_next(kani::any(), kani::any(), kani::any()));
-    }
-    #[kani::proof]
-    fn kp_h1() {
-        ok(chk_h1(kani::any()));
-    }
-    #[kani::proof]
-    #[kani::unwind(66)]
-    fn kb_probe_cycle() {
-        // bounded: tables of 1..=64 groups, every start position
-        let g: u32 = kani::any();
-        kani::assume(g <= 6);
-        let buckets = (Group::WIDTH << g) as usize;
-        ok(chk_probe_cycle(buckets - 1, kani::any()));
-    }
-    #[kani::proof]
-    fn kp_tag() {
-        ok(chk_tag(kani::any(), kani::any()));
-    }
-    #[kani::proof]
-    #[kani::unwind(18)]
-    fn kp_group() {
-        let bytes = Aligned::<32>(kani::any());
-        let off: usize = kani::any();
-        kani::assume(off <= 16);
-        ok(chk_group(&bytes, off, kani::any()));
-    }
-    #[kani::proof]
-    #[kani::unwind(18)]
-    fn kp_bitmask() {
-        let bytes = Aligned::<32>(kani::any());
-        ok(chk_bitmask(&bytes));
-    }
-    #[kani::proof]
-    #[kani::unwind(18)]
-    fn kp_static_empty() {
-        ok(chk_static_empty());
-    }
-    #[cfg(feature = "serde")]
-    #[kani::proof]
-    fn kp_cautious() {
-        ok(chk_cautious(kani::any()));
+        let size: usize = kani::any();
+        let align: usize = kani::any();
+        kani::assume(cap != 0 && align.is_power_of_two() && align >= Group::WIDTH);
+        if let Some(b) = capacity_to_buckets_c(cap, size, align) {
+            if let Some((lsize, lalign, off)) = calculate_layout_for_c(size, align, b) {
+                assert!(lsize >= off && lsize - off == b + Group::WIDTH);
+                assert!(lsize <= isize::MAX as usize - (lalign - 1));
+                assert!(spec_cap_of(b - 1) >= cap && spec_cap_of(b - 1) < b);
+            }
+        }
     }
 }
